@@ -87,6 +87,7 @@ package file
 //@   modifies passphrase[:]
 //@   ensures [seals-with-passphrase-key] sl ==> ar && ar.count == 1 && sl.count == 1 && sl.arg0.key == KDF(old(val(passphrase)), ar.arg1val)
 //@   ensures [seals-the-private-key] sl ==> s.privateKey != nil && sl.arg3val == skraw(s.privateKey.val)
+//@   ensures [salted] sl ==> len(ar.arg1) == 16
 //@   ensures [written-only-if-sealed] err == nil ==> sl
 //@   ensures [zeroed-on-success] err == nil ==> forall k :: 0 <= k && k < len(passphrase) ==> passphrase[k] == 0
 
@@ -116,5 +117,8 @@ package file
 //@   modifies passphrase[:], privKeyBytes[:]
 //@   ensures [seals-with-passphrase-key] sl ==> ar && ar.count == 1 && sl.count == 1 && sl.arg0.key == KDF(old(val(passphrase)), ar.arg1val)
 //@   ensures [seals-the-given-key] sl ==> sl.arg3val == old(val(privKeyBytes))
+// the key file is always written in the salted format: a file without a 16-byte salt would be read back as a
+// legacy file and opened with another key derivation
+//@   ensures [salted] sl ==> len(ar.arg1) == 16
 //@   ensures [written-only-if-sealed] err == nil ==> sl
 //@   ensures [zeroed] forall k :: 0 <= k && k < len(passphrase) ==> passphrase[k] == 0
